@@ -136,6 +136,9 @@ func scenario(s sink.Sink, rng *rand.Rand, sample bool) int {
 		if sc.Sub.Close {
 			points = append(points, "after-sub-close")
 		}
+		if sc.Sub.Second != nil {
+			points = append(points, "after-second-sub-steps")
+		}
 	}
 	if sc.FinalLast {
 		points = append(points, "after-final")
